@@ -1,13 +1,16 @@
 package main
 
 import (
+	"context"
 	"encoding/json"
+	gofs "io/fs"
 	"os"
 	"os/exec"
 	"path/filepath"
 	"syscall"
 	"time"
 
+	"github.com/tonistiigi/fsutil"
 	"github.com/tonistiigi/fsutil/types"
 )
 
@@ -42,6 +45,17 @@ func parseFault(f Op, xo *xferOpts, mfs *memFS) {
 		xo.cfg.DieRecvR = fp.at
 	case "dieS":
 		xo.cfg.DieSendS = fp.at
+	case "cancelS":
+		// the context of the Send call alone is cancelled while the source is being walked (the stream has its own context and keeps working)
+		if mfs != nil {
+			cs := xo.cancelSend
+			mfs.walkHookAt = fp.at
+			mfs.walkHook = func() {
+				if cs != nil && *cs != nil {
+					(*cs)()
+				}
+			}
+		}
 	case "walk":
 		if mfs != nil {
 			mfs.walkFailAt = fp.at
@@ -69,6 +83,24 @@ func faultRunJSON(res *xferResult) map[string]interface{} {
 		out["senderr"] = res.sendErr.Error()
 	}
 	return out
+}
+
+// hookFS calls hook when the walk of the wrapped FS reaches its at-th entry.
+type hookFS struct {
+	fsutil.FS
+	at   int
+	hook func()
+}
+
+func (h *hookFS) Walk(ctx context.Context, target string, fn gofs.WalkDirFunc) error {
+	n := 0
+	return h.FS.Walk(ctx, target, func(p string, d gofs.DirEntry, err error) error {
+		n++
+		if n == h.at {
+			h.hook()
+		}
+		return fn(p, d, err)
+	})
 }
 
 // hFault: a transfer with one injected fault, then a fault-free transfer into whatever was left behind.
@@ -104,6 +136,15 @@ func hFault(o Op) map[string]interface{} {
 	} else {
 		xo := parseXferOpts(Op(o["opt"].(map[string]interface{})))
 		parseFault(f, &xo, mfs)
+		if f.str("kind") == "cancelS" && mfs == nil {
+			// an on-disk source (the library's own walk): the hook sits in a wrapper around it
+			cs := xo.cancelSend
+			fs = &hookFS{FS: fs, at: f.num("at"), hook: func() {
+				if cs != nil && *cs != nil {
+					(*cs)()
+				}
+			}}
+		}
 		res := runXfer(fs, dest, xo, log)
 		r1 := faultRunJSON(res)
 		r1["log"] = logJSON(log, false)
